@@ -37,7 +37,7 @@ var fixtureDeps = []dep{
 	{"~/v1/api", "api"}, {"~/v2/api", "api"}, {"~/1st/log", "log"}, {"~/2nd/log", "log"},
 	{"~/dep/time", "time"}, {"~/yaml.v2", "yaml"}, {"~/Upper/Case", "kase"},
 	{"~/names/s", "s"}, {"~/names/err", "err"}, {"~/names/mock", "mock"}, {"~/kw/type", "kw"},
-	{"~/names/fooMoqParam", "fooMoqParam"}, {"~/names/n", "n"}, {"~/names/s1", "s1"}, {"~/names/s2", "s2"}, {"~/q/tri", "tri"}, {"~/apps/v1beta1", "apps"}, {"~/apps/v2", "apps"}, {"~/q/one", "one"}, {"~/q/two", "two"},
+	{"~/names/fooMoqParam", "fooMoqParam"}, {"~/names/n", "n"}, {"~/names/s1", "s1"}, {"~/names/s2", "s2"}, {"~/q/tri", "tri"}, {"~/apps/v1beta1", "apps"}, {"~/apps/v2", "apps"}, {"~/q/one", "one"}, {"~/q/two", "two"}, {"~/al/legacy", "legacy"},
 }
 
 var stdDeps = []dep{
@@ -279,13 +279,16 @@ func NewFixture(root string, pkgs []*SrcPkg) *Fixture {
 	writeFile(filepath.Join(root, "go.mod"), "module "+modPath+"\n\ngo 1.24\n")
 	for _, d := range fixtureDeps {
 		rel := d.Key[2:]
-		if d.Key == "~/q/tri" {
+		if d.Key == "~/q/tri" || d.Key == "~/al/legacy" {
 			continue // written below with its own content
 		}
 		writeFile(filepath.Join(root, rel, "p.go"), depBody(d.Name))
 	}
 	// a third package whose interface mentions three same-named packages in ONE parameter type
 	writeFile(filepath.Join(root, "q", "tri", "p.go"), "package tri\n\nimport (\n\taf \""+modPath+"/a/foo\"\n\tbf \""+modPath+"/b/foo\"\n\tdf \""+modPath+"/d/bar\"\n)\n\ntype Tri interface {\n\tTri(f func(af.T, bf.T) df.T) map[af.T]map[bf.T]df.T\n}\n")
+	// a package that re-exports another package's types under alias declarations: the same
+	// (types.Identical) type can then be spelled through two different packages
+	writeFile(filepath.Join(root, "al", "legacy", "p.go"), "package legacy\n\nimport foo \""+modPath+"/a/foo\"\n\ntype T = foo.T\n\ntype I = foo.I\n\ntype Fn = func(foo.T) foo.T\n")
 	for _, p := range pkgs {
 		fx.writePkg(p)
 	}
